@@ -342,6 +342,23 @@ pub fn condition_register_bit_to_flag(condition_register_bit: usize) -> Result<S
     })
 }
 
+/// Record forms (mnemonics ending in '.') compare the result, which is the
+/// first operand, with zero and set the lt/gt/eq flags of cr0 accordingly.
+pub fn record_cr0(
+    control_flow_graph: &mut ControlFlowGraph,
+    instruction: &capstone::Instr,
+) -> Result<(), Error> {
+    let detail = details(instruction)?;
+
+    let result = get_register(detail.operands[0].reg())?.expression();
+
+    let exit = control_flow_graph
+        .exit()
+        .ok_or("instruction graph without exit")?;
+    let block = control_flow_graph.block_mut(exit)?;
+    set_condition_register_signed(block, scalar("cr0", 4), result, expr_const(0, 32))
+}
+
 pub fn rlwinm_(
     control_flow_graph: &mut ControlFlowGraph,
     ra: Scalar,
